@@ -46,7 +46,7 @@ Lemma cleanup_exact s ub :
   let s' := fst (step s (Cleanup ub)) in
   forall d, In d (dirs s') <-> exists n i, lookup (meta s') n = Some i /\ d = DId (i_id i).
 Proof.
-  simpl. unfold do_cleanup. intros I C. rewrite C. destruct (Nat.eqb (seq s) 0); simpl; [discriminate|].
+  simpl. unfold do_cleanup. intros I C. rewrite C. simpl.
   intros _. apply dirs_exact_after_cleanup; auto.
 Qed.
 
@@ -321,7 +321,7 @@ Proof.
       * apply selfd_app; auto. apply selfd_quiet. qt.
   - (* Cleanup *)
     unfold do_cleanup. destruct (closed s); [apply NIL; reflexivity|].
-    destruct (Nat.eqb (seq s) 0); [apply NIL; reflexivity|]. simpl.
+    simpl.
     eapply cleanup_log; eauto.
   - (* Update *)
     unfold do_update. destruct (closed s); [apply NIL; reflexivity|].
@@ -435,8 +435,7 @@ Proof.
               | None => false
               end); [simpl; discriminate|].
     destruct (async s); simpl; discriminate.
-  - unfold do_cleanup. destruct (closed s); [simpl; discriminate|].
-    destruct (Nat.eqb (seq s) 0); simpl; discriminate.
+  - unfold do_cleanup. destruct (closed s); simpl; discriminate.
   - unfold do_update. destruct (closed s); [simpl; discriminate|].
     destruct (lookup (meta s) nm); simpl; discriminate.
   - unfold do_stat. destruct (closed s); [simpl; discriminate|].
@@ -703,7 +702,7 @@ Proof.
       - intros id _ H. eapply del_ids_sub; eauto. }
     destruct (async s); simpl; [exact R1|]. apply rinv_cleanup. exact R1.
   - (* Cleanup *)
-    unfold do_cleanup. destruct (closed s); [exact R|]. destruct (Nat.eqb (seq s) 0); [exact R|].
+    unfold do_cleanup. destruct (closed s); [exact R|].
     simpl. apply rinv_cleanup. exact R.
   - (* Update *)
     unfold do_update. destruct (closed s); [exact R|].
@@ -753,3 +752,110 @@ Proof.
   - apply in_ids in I0. destruct I0 as [n [i [F Q]]]. subst id. eapply inv_has; eauto.
 Qed.
 
+
+(* ---------- availability, converse: a failed Check makes the call fail as Unavailable ---------- *)
+Definition nocheck (E : list event) : Prop := forall id b, ~ In (EvCheck id b) E.
+
+Lemma ctrace_nocheck Q E : ctrace Q E -> nocheck E.
+Proof.
+  induction 1 as [|d lv ok t Qd CT IH]; intros id b H; [contradiction|].
+  destruct H as [H|[H|H]]; try discriminate. eapply IH; eauto.
+Qed.
+
+Lemma nocheck_app E1 E2 : nocheck E1 -> nocheck E2 -> nocheck (E1 ++ E2).
+Proof. intros A B id b H. apply in_app_or in H. destruct H; [eapply A|eapply B]; eauto. Qed.
+
+Lemma cleanup_nocheck ub s ds : exists E, log (cleanup_dirs ub s ds) = log s ++ E /\ nocheck E.
+Proof.
+  destruct (cleanup_dirs_spec ub ds s) as [E [Sh [_ [CT _]]]]. exists E. split; [destruct Sh; auto|].
+  eapply ctrace_nocheck; eauto.
+Qed.
+
+Lemma mounts_of_fail cbad s s2 sn ck E0 id :
+  log s2 = log s ++ E0 -> nocheck E0 ->
+  In (EvCheck id false) (skipn (length (log s)) (log (fst (mounts_of cbad s2 sn ck)))) ->
+  snd (mounts_of cbad s2 sn ck) = RErr EUnavail.
+Proof.
+  intros L0 N0 H. destruct (mounts_of_spec cbad s2 sn ck) as [E [Sh [_ [_ [_ [_ [_ N]]]]]]].
+  destruct Sh. rewrite sh_log, L0, <- app_assoc, skipn_app_len in H.
+  apply in_app_or in H. destruct H as [H|H]; [exfalso; eapply N0; eauto|]. eapply N; eauto.
+Qed.
+
+Lemma step_check_fail s o id :
+  In (EvCheck id false) (step_events s o) -> snd (step s o) = RErr EUnavail.
+Proof.
+  unfold step_events.
+  assert (NO : forall s' E, log s' = log s ++ E -> nocheck E ->
+                 In (EvCheck id false) (skipn (length (log s)) (log s')) -> False).
+  { intros s' E L N. rewrite L, skipn_app_len. apply N. }
+  assert (NIL : forall s', log s' = log s -> In (EvCheck id false) (skipn (length (log s)) (log s')) -> False).
+  { intros s' L. apply NO with (E := []); [rewrite app_nil_r; exact L|]. intros j b []. }
+  assert (N1 : forall e, match e with EvCheck _ _ => False | _ => True end -> nocheck [e]).
+  { intros e Q j b [H|[]]. subst e. exact Q. }
+  destruct o; simpl.
+  - (* Prepare *)
+    pose proof (prepare_cases s key parent l mok cbad) as PC. cbv zeta in PC.
+    destruct PC as [[e [E [_ [_ [_ [_ [_ CS]]]]]]]|[sn [CS [B1|[B2|B3]]]]].
+    + intros H. exfalso. apply create_err in CS. destruct CS as [E' [Sh [_ [_ [_ CT]]]]]. destruct Sh.
+      eapply NO; eauto. eapply ctrace_nocheck; eauto.
+    + destruct B1 as [s2 [S2 [E' R']]]. rewrite E', R'.
+      destruct S2 as [[_ ->]|[_ [_ ->]]].
+      * apply mounts_of_fail with (E0 := []); [simpl; rewrite app_nil_r; reflexivity|intros j b []].
+      * apply mounts_of_fail with (E0 := [EvMount (S (seq s)) l false]); [reflexivity|apply N1; exact I].
+    + destruct B2 as [t [_ [_ [_ [_ E']]]]]. rewrite E'. intros H. exfalso.
+      eapply NO with (E := [EvMount (S (seq s)) l true] ++ [EvRemoteCommit (S (seq s))]); [| |exact H].
+      * simpl. rewrite <- app_assoc. reflexivity.
+      * apply nocheck_app; apply N1; exact I.
+    + destruct B3 as [t [j [_ [_ [_ [_ E']]]]]]. rewrite E'. intros H. exfalso.
+      eapply NO with (E := [EvMount (S (seq s)) l true]); [reflexivity|apply N1; exact I|exact H].
+  - (* View *)
+    unfold do_view. destruct (create_snapshot s KView key parent l) as [s1 [e|sn]] eqn:CS.
+    + simpl. intros H. exfalso. apply create_err in CS. destruct CS as [E' [Sh [_ [_ [_ CT]]]]]. destruct Sh.
+      eapply NO; eauto. eapply ctrace_nocheck; eauto.
+    + apply create_ok in CS. destruct CS as [_ [_ [_ [_ [E1 _]]]]].
+      apply mounts_of_fail with (E0 := []); [subst s1; simpl; rewrite app_nil_r; reflexivity|intros j b []].
+  - (* Commit *)
+    destruct (commit_active s nm key l false) as [s1 r] eqn:CA. simpl. intros H. exfalso.
+    apply commit_log in CA. eapply NIL; [|exact H]. tauto.
+  - (* Mounts *)
+    unfold do_mounts. destruct (closed s); [simpl; intros H; exfalso; eapply NIL; eauto|].
+    destruct (lookup (meta s) key) as [i|]; [|simpl; intros H; exfalso; eapply NIL; eauto].
+    destruct (kind_eqb (i_kind i) KCommitted); [simpl; intros H; exfalso; eapply NIL; eauto|].
+    assert (MO : forall sn, In (EvCheck id false) (skipn (length (log s)) (log (fst (mounts_of cbad s sn (Some key))))) ->
+                 snd (mounts_of cbad s sn (Some key)) = RErr EUnavail).
+    { intros sn. apply mounts_of_fail with (E0 := []); [rewrite app_nil_r; reflexivity|intros j b []]. }
+    destruct (i_parent i) as [p|]; [|apply MO].
+    destruct (parents (fuel_of s) (meta s) p); try (simpl; intros H; exfalso; eapply NIL; eauto; fail). apply MO.
+  - (* Remove *)
+    unfold do_remove. destruct (closed s); [simpl; intros H; exfalso; eapply NIL; eauto|].
+    destruct (lookup (meta s) key) as [i|]; [|simpl; intros H; exfalso; eapply NIL; eauto].
+    destruct (has_child (meta s) key); [simpl; intros H; exfalso; eapply NIL; eauto|].
+    destruct (match i_parent i with
+              | Some p => match lookup (meta s) p with Some _ => false | None => true end
+              | None => false
+              end); [simpl; intros H; exfalso; eapply NIL; eauto|].
+    set (s1 := emit (set_meta s (del (meta s) key)) (EvMetaRemove (i_id i))).
+    destruct (async s); simpl; intros H; exfalso.
+    + eapply NO with (E := [EvMetaRemove (i_id i)]); [reflexivity|apply N1; exact I|exact H].
+    + destruct (cleanup_nocheck ubad s1 (cleanup_list s1 false)) as [E [L N]].
+      eapply NO with (E := [EvMetaRemove (i_id i)] ++ E); [| |exact H].
+      * rewrite L. unfold s1. simpl. rewrite <- app_assoc. reflexivity.
+      * apply nocheck_app; [apply N1; exact I|exact N].
+  - (* Cleanup *)
+    unfold do_cleanup. destruct (closed s); simpl; intros H; exfalso; [eapply NIL; eauto|].
+    destruct (cleanup_nocheck ubad s (cleanup_list s false)) as [E [L N]]. eapply NO; eauto.
+  - (* Update *)
+    unfold do_update. destruct (closed s); [simpl; intros H; exfalso; eapply NIL; eauto|].
+    destruct (lookup (meta s) nm); simpl; intros H; exfalso; eapply NIL; eauto.
+  - (* Stat *)
+    unfold do_stat. destruct (closed s); [simpl; intros H; exfalso; eapply NIL; eauto|].
+    destruct (lookup (meta s) nm); simpl; intros H; exfalso; eapply NIL; eauto.
+  - (* Close *)
+    unfold do_close. destruct (closed s); [simpl; intros H; exfalso; eapply NIL; eauto|].
+    destruct (Nat.eqb (seq s) 0); simpl; intros H; exfalso.
+    + eapply NO with (E := [EvClose]); [reflexivity|apply N1; exact I|exact H].
+    + destruct (cleanup_nocheck ubad (emit s EvClose) (cleanup_list (emit s EvClose) true)) as [E [L N]].
+      eapply NO with (E := [EvClose] ++ E); [| |exact H].
+      * rewrite L. simpl. rewrite <- app_assoc. reflexivity.
+      * apply nocheck_app; [apply N1; exact I|exact N].
+Qed.
